@@ -114,6 +114,11 @@ BOr(a, b, n)  == Seq1([i \in 1 .. n |-> OrD(Dig(a, i), Dig(b, i))], n)
 BXor(a, b, n) == Seq1([i \in 1 .. n |-> XorD(Dig(a, i), Dig(b, i))], n)
 BNot(a, n)    == Seq1([i \in 1 .. n |-> 255 - Dig(a, i)], n)
 
+\* a mod d for a small divisor d (< 2^22), from the most significant digit down
+RECURSIVE ModSmallRec(_, _, _, _)
+ModSmallRec(a, d, i, r) == IF i = 0 THEN r ELSE ModSmallRec(a, d, i - 1, (r * 256 + a[i]) % d)
+BModSmall(a, d) == ModSmallRec(a, d, Len(a), 0)
+
 One == <<1>>
 BPow2(k) == BShl(One, k)                      \* 2^k as a digit sequence
 =============================================================================
